@@ -32,10 +32,9 @@ C21 = {
                                                                   "validity_not_after", "subject", "subject_public_key_algorithm", "subject_public_key_modulus",
                                                                   "subject_public_key_exponent", "x509_v3_extensions"]}],
 }
+# STIX 2.0 states one timestamp-order rule only (modified >= created, part of the common properties); the rules for valid_from/valid_until,
+# first_seen/last_seen and first_observed/last_observed arrived with 2.1 and create no obligation for 2.0 content.
 C20 = {
-    "objects:indicator": [{"k": "lt", "a": "valid_from", "b": "valid_until"}],
-    "objects:observed-data": [{"k": "le", "a": "first_observed", "b": "last_observed"}],
-    "objects:sighting": [{"k": "le", "a": "first_seen", "b": "last_seen"}],
     "embedded:ExternalReference": [{"k": "at_least_one", "of": ["description", "url", "external_id"]}],
     "observables:artifact": [{"k": "mutex", "of": ["payload_bin", "url"]}, {"k": "at_least_one", "of": ["payload_bin", "url"]}, {"k": "requires", "a": "url", "b": "hashes"}],
     "observables:network-traffic": [{"k": "at_least_one", "of": ["src_ref", "dst_ref"]}, {"k": "if_true_forbids", "a": "is_active", "b": "end"}],
